@@ -328,12 +328,34 @@ class C11:
 
     async def liveness(self, env: Any, unit: dict, res: dict) -> None:
         classes, sigmap = build_shape(unit["shape"])
-        for mode in ("untouched", "bound", "subscribed", "dispatched"):
+        for mode in ("untouched", "bound", "subscribed", "dispatched", "listening"):
             for ci, cls in enumerate(classes):
                 fails = []
                 inst = cls()
                 ref = weakref.ref(inst)
                 attrs = list(sigmap[cls])
+                if mode == "listening":
+                    # a task is suspended in a stream of the signal (nothing dispatched yet) when the last reference goes away
+                    sig0 = getattr(inst, attrs[0])
+
+                    async def listen(sig0: Any = sig0) -> None:
+                        async with sig0.stream_events() as stream:
+                            await stream.__anext__()
+
+                    async with anyio.create_task_group() as ltg:
+                        ltg.start_soon(listen)
+                        del sig0, listen
+                        for _ in range(3):
+                            await anyio.lowlevel.checkpoint()
+                        del inst
+                        gc.collect()
+                        alive = ref() is not None
+                        ltg.cancel_scope.cancel()
+                    res["cases"] += 1
+                    if alive:
+                        res["violations"].append({"keys": ["leak"], "fails": [["leak", f"an instance of {cls.__name__} stayed alive while a listener was suspended on its signal"]],
+                                                  "program": {"shape": unit["shape"], "liveness": mode}, "choices": [], "trace": [], "outcome": "done"})
+                    continue
                 if mode != "untouched":
                     sigs = [getattr(inst, a) for a in attrs]
                     try:
